@@ -104,16 +104,21 @@ static void drain (void)
     while ((c = accept (lfd, NULL, NULL)) >= 0) close (c);
 }
 
-int main (void)
+int main (int argc, char **argv)
 {
-    char dir[] = "/tmp/verif-probe-sock-XXXXXX", path[128];
+    char dir[100], path[128], *slash;
     struct sockaddr_un sa;
     munge_ctx_t ctx;
     int c, first, att_sock = -1, att_bad = -1, maxl_r = -1, maxl_s = -1, send_is_req = 1, varies = 0;
     static int ex[256];
 
-    if (!mkdtemp (dir)) { perror ("mkdtemp"); return 1; }
+    /* the socket lives next to the executable, i.e. in the private directory gen_facts.run_probe removes afterwards */
+    (void) argc;
+    snprintf (dir, sizeof dir, "%s", argv[0]);
+    slash = strrchr (dir, '/');
+    if (slash) *slash = 0; else strcpy (dir, ".");
     snprintf (path, sizeof path, "%s/s", dir);
+    unlink (path);
     memset (&sa, 0, sizeof sa); sa.sun_family = AF_UNIX; strcpy (sa.sun_path, path);
     lfd = socket (AF_UNIX, SOCK_STREAM, 0);
     if (lfd < 0 || bind (lfd, (struct sockaddr *) &sa, sizeof sa) < 0 || listen (lfd, 128) < 0) { perror ("listen"); return 1; }
@@ -239,6 +244,6 @@ int main (void)
     }
     if (first < 0) printf ("Definition measured_enc_src (o : eslot) : dsrc := SrcNone.\n");
     munge_ctx_destroy (ctx);
-    close (lfd); unlink (path); rmdir (dir);
+    close (lfd); unlink (path);
     return 0;
 }
